@@ -330,10 +330,145 @@ func shapeOf(dir string) ([]string, error) {
 			}
 		case srcsel.Flagged:
 			items = append(items, "file "+e.Name()+" (EXCLUDED from the -tags verif build: the tested binary differs from the shipped one)")
+		case srcsel.Excluded:
+			// not built in the analysed configuration (linux/amd64, cgo, no tags): invisible to the translators and to the
+			// harness, so at least its existence is part of the shape (another GOOS, `ignore`, `!cgo`, `race`, …)
+			items = append(items, "file "+e.Name()+" (not built in the analysed configuration)")
 		}
 	}
 	sort.Strings(items)
 	return items, nil
+}
+
+// moduleShape lists, over EVERY package directory of the repository, what can influence the modelled packages from
+// outside them: init functions, linkname/unsafe-style directives and sensitive imports, writes to (or addresses taken
+// of) package-level variables of ANOTHER package of the repository, and files excluded from the analysed build.
+func moduleShape(repo string) ([]string, error) {
+	var items []string
+	err := filepath.Walk(repo, func(path string, info os.FileInfo, err error) error {
+		if err != nil {
+			return err
+		}
+		if info.IsDir() {
+			if info.Name() == ".git" || info.Name() == "testdata" {
+				return filepath.SkipDir
+			}
+			return nil
+		}
+		if !strings.HasSuffix(info.Name(), ".go") || strings.HasSuffix(info.Name(), "_test.go") {
+			return nil
+		}
+		relp, _ := filepath.Rel(repo, path)
+		cl := srcsel.Classify(path)
+		if cl == srcsel.Excluded {
+			items = append(items, "file "+relp+" (not built in the analysed configuration)")
+			return nil
+		}
+		if cl == srcsel.Hook {
+			return nil
+		}
+		fset := token.NewFileSet()
+		f, perr := parser.ParseFile(fset, path, nil, parser.SkipObjectResolution|parser.ParseComments)
+		if perr != nil {
+			items = append(items, "file "+relp+" does not parse")
+			return nil
+		}
+		// names under which other repository packages are imported here
+		repoPkgs := map[string]string{}
+		for _, im := range f.Imports {
+			ip := strings.Trim(im.Path.Value, `"`)
+			if ip == "github.com/gcash/bchutil" || strings.HasPrefix(ip, "github.com/gcash/bchutil/") {
+				name := filepath.Base(ip)
+				if im.Name != nil {
+					name = im.Name.Name
+				}
+				repoPkgs[name] = ip
+			}
+			if ip == "unsafe" || ip == "C" || ip == "syscall" || ip == "plugin" || ip == "reflect" || strings.HasPrefix(ip, "golang.org/x/sys") {
+				items = append(items, "import "+ip+" in "+relp)
+			}
+		}
+		for _, cg := range f.Comments {
+			for _, c := range cg.List {
+				if strings.HasPrefix(c.Text, "//go:linkname") || strings.HasPrefix(c.Text, "//go:cgo_") {
+					items = append(items, "directive "+strings.Join(strings.Fields(c.Text), " ")+" in "+relp)
+				}
+			}
+		}
+		for _, d := range f.Decls {
+			fd, ok := d.(*ast.FuncDecl)
+			if !ok {
+				if gd, ok := d.(*ast.GenDecl); ok && gd.Tok == token.VAR {
+					// package-level initialisers run at start-up too
+					for _, sp := range gd.Specs {
+						for _, v := range sp.(*ast.ValueSpec).Values {
+							ast.Inspect(v, func(n ast.Node) bool {
+								if _, ok := n.(*ast.FuncLit); ok {
+									items = append(items, "package-level initialiser with a function literal in "+relp)
+								}
+								return true
+							})
+						}
+					}
+				}
+				continue
+			}
+			if fd.Recv == nil && fd.Name.Name == "init" {
+				items = append(items, "func init in "+relp)
+			}
+			if fd.Body == nil {
+				continue
+			}
+			ast.Inspect(fd.Body, func(n ast.Node) bool {
+				foreign := func(e ast.Expr) string {
+					for {
+						switch v := e.(type) {
+						case *ast.IndexExpr:
+							e = v.X
+							continue
+						case *ast.StarExpr:
+							e = v.X
+							continue
+						case *ast.ParenExpr:
+							e = v.X
+							continue
+						case *ast.SelectorExpr:
+							if id, ok := v.X.(*ast.Ident); ok {
+								if ip, ok := repoPkgs[id.Name]; ok {
+									return ip + "." + v.Sel.Name
+								}
+							}
+							e = v.X
+							continue
+						}
+						return ""
+					}
+				}
+				switch v := n.(type) {
+				case *ast.AssignStmt:
+					for _, l := range v.Lhs {
+						if t := foreign(l); t != "" {
+							items = append(items, "write to "+t+" in "+relp+" func "+fd.Name.Name)
+						}
+					}
+				case *ast.IncDecStmt:
+					if t := foreign(v.X); t != "" {
+						items = append(items, "write to "+t+" in "+relp+" func "+fd.Name.Name)
+					}
+				case *ast.UnaryExpr:
+					if v.Op == token.AND {
+						if t := foreign(v.X); t != "" {
+							items = append(items, "address of "+t+" taken in "+relp+" func "+fd.Name.Name)
+						}
+					}
+				}
+				return true
+			})
+		}
+		return nil
+	})
+	sort.Strings(items)
+	return items, err
 }
 
 func writeShape(repo, out string, baseline string) (bool, error) {
@@ -354,6 +489,16 @@ func writeShape(repo, out string, baseline string) (bool, error) {
 		fmt.Fprintf(&sb, "Definition shape_%s : list (list N) := [%s]%%N.\n\n", name, strings.Join(lits, ";"))
 		fmt.Fprintf(&bb, "Definition base_%s : list (list N) := [%s]%%N.\n\n", name, strings.Join(lits, ";"))
 	}
+	mitems, merr := moduleShape(repo)
+	if merr != nil {
+		return false, merr
+	}
+	var mlits []string
+	for _, it := range mitems {
+		mlits = append(mlits, "\n  (* "+strings.ReplaceAll(it, "*)", "* )")+" *) "+bytesList(it))
+	}
+	fmt.Fprintf(&sb, "Definition shape_module : list (list N) := [%s]%%N.\n\n", strings.Join(mlits, ";"))
+	fmt.Fprintf(&bb, "Definition base_module : list (list N) := [%s]%%N.\n\n", strings.Join(mlits, ";"))
 	changed := false
 	if old, _ := os.ReadFile(out); !bytes.Equal(old, []byte(sb.String())) {
 		if err := os.WriteFile(out, []byte(sb.String()), 0o644); err != nil {
